@@ -68,6 +68,22 @@ func extractC14() {
 		}
 		return "?" + src(e)
 	}
+	// the group NewStack hands back first is "the stack": its name is taken from the last return
+	// statement (or, for a bare return, from the first named result), not assumed to be `outer`
+	outerName := "outer"
+	if ns != nil {
+		if ns.Type.Results != nil && len(ns.Type.Results.List) > 0 && len(ns.Type.Results.List[0].Names) > 0 {
+			outerName = ns.Type.Results.List[0].Names[0].Name
+		}
+		ast.Inspect(ns.Body, func(x ast.Node) bool {
+			if rs, ok := x.(*ast.ReturnStmt); ok && len(rs.Results) > 0 {
+				if id, ok := rs.Results[0].(*ast.Ident); ok {
+					outerName = id.Name
+				}
+			}
+			return true
+		})
+	}
 	if ns != nil {
 		ast.Inspect(ns.Body, func(x ast.Node) bool {
 			switch s := x.(type) {
@@ -88,7 +104,7 @@ func extractC14() {
 				if !ok {
 					return true
 				}
-				if recv.Name != "outer" {
+				if recv.Name != outerName {
 					return true
 				}
 				// outer.SetAggregateErrors(<literal>): the last call wins, as at run time; anything but a
